@@ -134,7 +134,15 @@ fn resolve_index(a: Arg, m: &Model) -> usize {
 }
 
 /// Full accessor comparison of a chain against expected contents.
+/// All readers below use in-range arguments only: a panic inside the library while reading is a finding like any other mismatch.
 fn check_chain(c: &LongChain<'_>, want: &[u8], what: &str) -> Result<(), String> {
+    match catch_unwind(AssertUnwindSafe(|| check_chain_inner(c, want, what))) {
+        Ok(r) => r,
+        Err(_) => Err(format!("{what}: a read of the chain with in-range arguments (chunk / advance / copy_to_bytes / chunks_vectored / clone_from) panicked")),
+    }
+}
+
+fn check_chain_inner(c: &LongChain<'_>, want: &[u8], what: &str) -> Result<(), String> {
     if c.len() != want.len() {
         return Err(format!("{what}: len() = {} but contents have {} bytes", c.len(), want.len()));
     }
@@ -198,6 +206,25 @@ fn check_chain(c: &LongChain<'_>, want: &[u8], what: &str) -> Result<(), String>
         }
         if rest != want[k..] || d.len() != 0 {
             return Err(format!("{what}: after one advance({k}) the rest reads {} (len() {}), the model says {}", hex(&rest), d.len(), hex(&want[k..])));
+        }
+    }
+    {
+        // copy_to_bytes() is a loop over chunk()/advance() inside the library: rehearse exactly its steps with a bound first, so
+        // that a chain which would make it spin (an empty chunk while bytes remain) is reported instead of hanging the check
+        let mut r = c.clone();
+        for want_n in [k, want.len() - k] {
+            let mut n = want_n;
+            let mut guard = 0;
+            while n > 0 {
+                let ch = r.chunk();
+                if ch.is_empty() || guard > 10_000 {
+                    return Err(format!("{what}: reading {want_n} bytes through chunk()/advance() does not terminate (chunk() empty with {} bytes remaining)", r.remaining()));
+                }
+                let cnt = ch.len().min(n);
+                r.advance(cnt);
+                n -= cnt;
+                guard += 1;
+            }
         }
     }
     {
